@@ -65,11 +65,31 @@ def aln_term(a):
             f"{a.get('mapq', 60)} {a['start']} {cigar_term(a['cigar'])} {seq_term(a['seq'])} {quals})")
 
 
+class Err:
+    """the implementation raised: 0 = AssertionError, 1 = SampleNotFoundError, 2 = KeyError (alignment without RG tag)"""
+    NAMES = {0: "AssertionError", 1: "SampleNotFoundError", 2: "KeyError"}
+
+    def __init__(self, code):
+        self.code = code
+
+    def __repr__(self):
+        return f"<{self.NAMES[self.code]}>"
+
+
 def out_term(out):
-    if out is None:
-        return "None"
+    if isinstance(out, Err):
+        return f"(None, {out.code})"
     return "(Some [" + "; ".join(
-        f"({n}, [" + "; ".join(f"({p}, {al}, {q})" for p, al, q in vs) + "])" for n, vs in out) + "])"
+        f"({n}, [" + "; ".join(f"({p}, {al}, {q})" for p, al, q in vs) + "])" for n, vs in out) + "], 0)"
+
+
+def rg_term(case):
+    """(header, requested sample, RG tag per alignment) -- sample/rg ids as nat"""
+    hdr = "[" + "; ".join(f"({g}, {'None' if sm is None else f'Some {sm}'})" for g, sm in case.get("header", [(0, 0)])) + "]"
+    smp = case.get("sample", 0)
+    smp = "None" if smp is None else f"(Some {smp})"
+    rgs = "[" + "; ".join("None" if a.get("rg", 0) is None else f"Some {a.get('rg', 0)}" for a in case["alns"]) + "]"
+    return f"({hdr}, {smp}, {rgs})"
 
 
 def truth_term(t):
@@ -91,7 +111,7 @@ def case_term(case, refmode, out):
         truth = f"({truth_term(case['truth_all'])}, [])"
         must = "([], [], [])"
     rt = f"(Some {seq_term(ref)})" if refmode else "None"
-    rt = f"({rt}, {case.get('threshold', 100000)}%Z)"
+    rt = f"({rt}, {case.get('threshold', 100000)}%Z, {rg_term(case)})"
     return f"(({rt}, {vs},\n  {alns},\n  {truth}, {must},\n  {out_term(out)}) : case_t)"
 
 
@@ -103,23 +123,49 @@ class _Sc:
         self.samples = [SAMPLE]
 
 
+def write_case_bam(case, path):
+    """BAM of the case: @RG lines in the case's header order (ID g<k>, SM S<sample> or no SM), RG tag per alignment
+    (or none); alignments sorted by start (stable)."""
+    import pysam
+    header = {"HD": {"VN": "1.6", "SO": "coordinate"}, "SQ": [{"SN": CHROM, "LN": len(case["ref"])}],
+              "RG": [dict(ID=f"g{g}", **({} if sm is None else {"SM": f"S{sm}"})) for g, sm in case.get("header", [(0, 0)])]}
+    with pysam.AlignmentFile(path, "wb", header=header) as out:
+        for a in case["alns"]:
+            r = pysam.AlignedSegment(out.header)
+            r.query_name = f"r{a['nid']}"
+            r.query_sequence = a["seq"]
+            r.flag = a.get("flag", 0)
+            r.reference_id = 0
+            r.reference_start = a["start"]
+            r.mapping_quality = a.get("mapq", 60)
+            r.cigartuples = [(G.OPCODE[o], n) for o, n in a["cigar"]]
+            r.query_qualities = a["qarr"]
+            if "mate_start" in a:
+                r.next_reference_id = 0
+                r.next_reference_start = a["mate_start"]
+            if a.get("rg", 0) is not None:
+                r.set_tags([("RG", f"g{a.get('rg', 0)}")])
+            out.write(r)
+    pysam.index(path)
+
+
 def run_impl(wd, case, refmode, perturb=None):
-    """Run the real ReadSetReader.read on a BAM (+ FASTA) written for this case.
-    Returns sorted [(name id, [(position, allele, quality)])] or None for an AssertionError."""
+    """Run the real ReadSetReader.read(chromosome, variants, sample, reference) on a BAM (+ FASTA) written for this case.
+    Returns sorted [(name id, [(position, allele, quality)])] or Err(code)."""
     import pyfaidx
     from whatshap.variants import ReadSetReader
     from whatshap.core import NumericSampleIds
     from whatshap.vcf import BiallelicVcfVariant
+    from whatshap.bam import SampleNotFoundError
+    import logging
+    logging.getLogger("whatshap.bam").setLevel(logging.ERROR)      # "read group without SM" warnings
     sc = _Sc(case["ref"])
     bam = os.path.join(wd, "r.bam")
     fa = os.path.join(wd, "ref.fa")
     for p in (bam, bam + ".bai", fa, fa + ".fai"):
         if os.path.exists(p):
             os.remove(p)
-    reads = [dict(name=f"r{a['nid']}", sample=SAMPLE, chrom=CHROM, start=a["start"], cigar=a["cigar"], seq=a["seq"],
-                  qual=a["qarr"], flag=a.get("flag", 0), mapq=a.get("mapq", 60),
-                  **({"mate_start": a["mate_start"]} if "mate_start" in a else {})) for a in case["alns"]]
-    synth.write_bam(sc, reads, bam)
+    write_case_bam(case, bam)
     variants = [BiallelicVcfVariant(p, r, a) for p, r, a in case["listed"]]
     reference = None
     fasta = None
@@ -127,17 +173,22 @@ def run_impl(wd, case, refmode, perturb=None):
         synth.write_fasta(sc, fa)
         fasta = pyfaidx.Fasta(fa, as_raw=True, sequence_always_upper=True)
         reference = fasta[CHROM]
+    sample = case.get("sample", 0)
     try:
         with ReadSetReader([bam], reference=None, numeric_sample_ids=NumericSampleIds(),
                            supplementary_distance_threshold=case.get("threshold", 100000)) as rsr:
-            rs = rsr.read(CHROM, variants, SAMPLE, reference)
+            rs = rsr.read(CHROM, variants, None if sample is None else f"S{sample}", reference)
             out = sorted((int(r.name[1:]), [(v.position, v.allele, v.quality) for v in r]) for r in rs)
     except AssertionError:
-        out = None
+        out = Err(0)
+    except SampleNotFoundError:
+        out = Err(1)
+    except KeyError:
+        out = Err(2)
     finally:
         if fasta is not None:
             fasta.close()
-    if perturb and out:
+    if perturb and isinstance(out, list) and out:
         out = perturb(out)
     return out
 
@@ -265,7 +316,42 @@ def gen_case(rng, small=False):
         return None
     # mostly the default supplementary distance threshold; sometimes one of the order of the read length
     threshold = 100000 if rng.random() < 0.85 else rng.choice([5, 20, 60, 150])
-    return finish_case(ref, listed, carried, cols, alns, threshold)
+    if rng.random() < 0.7:
+        return [finish_case(ref, listed, carried, cols, alns, threshold)]
+    return multi_sample_drives(rng, ref, listed, carried, cols, alns, threshold)
+
+
+def multi_sample_drives(rng, ref, listed, carried, cols, alns, threshold):
+    """2-3 samples, each owning 1-3 read groups whose @RG lines are interleaved in random header order, optionally a read
+    group without SM; every read name goes to one read group (mates stay together).  One drive per sample, one with
+    sample=None (what the CLI does for --ignore-read-groups), sometimes one for a sample the header does not know;
+    sometimes an alignment loses its RG tag (then every drive with a sample must end in KeyError: malformed stream)."""
+    nsamples = rng.randint(2, 3)
+    header, gid = [], 0
+    groups = {}
+    for sm in range(nsamples):
+        for _ in range(rng.randint(1, 3)):
+            header.append((gid, sm))
+            groups.setdefault(sm, []).append(gid)
+            gid += 1
+    if rng.random() < 0.3:
+        header.append((gid, None))
+        groups[None] = [gid]
+        gid += 1
+    rng.shuffle(header)
+    owners = list(groups)
+    name_rg = {}
+    for a in alns:
+        if a["nid"] not in name_rg:
+            sm = rng.choice(owners)
+            name_rg[a["nid"]] = (sm, rng.choice(groups[sm]))
+        a["sm"], a["rg"] = name_rg[a["nid"]]
+    if rng.random() < 0.12:
+        rng.choice(alns)["rg"] = None
+    drives = list(range(nsamples)) + [None]
+    if rng.random() < 0.15:
+        drives.append(nsamples + 3)
+    return [finish_case(ref, listed, carried, cols, [dict(a) for a in alns], threshold, header=header, sample=s) for s in drives]
 
 
 def usable(a):
@@ -277,14 +363,20 @@ def ref_end(a):
     return a["start"] + sum(n for o, n in a["cigar"] if o in "MDN=X")
 
 
-def finish_case(ref, listed, carried, cols, alns, threshold=100000):
+def in_sample(a, sample):
+    """specification side: the alignment belongs to the requested sample (its read group's SM), or no sample is requested"""
+    return sample is None or (a.get("rg", 0) is not None and a.get("sm", 0) == sample)
+
+
+def finish_case(ref, listed, carried, cols, alns, threshold=100000, header=((0, 0),), sample=0):
     """group-level ground truth.  A statement about (read name, variant) is only made when every usable alignment of
     that name that touches the variant fully covers it (a partially covering mate may report anything)."""
     alns = sorted(alns, key=lambda a: a["start"])          # stable, the same order synth.write_bam produces
     by_name = {}
     ncov = 0
+    malformed = sample is not None and (not any(sm == sample for _, sm in header) or any(a.get("rg", 0) is None for a in alns))
     for a in alns:
-        if usable(a):
+        if usable(a) and in_sample(a, sample) and not malformed:
             a["t"], a["touch"] = G.truth_of(ref, cols, listed, carried, a)
             ncov += len(a["t"])
             by_name.setdefault(a["nid"], []).append(a)
@@ -313,7 +405,8 @@ def finish_case(ref, listed, carried, cols, alns, threshold=100000):
                 res["truth_skip"].setdefault(n, {})[v[0]] = allele
                 if same:
                     res["must_skip"].setdefault(n, set()).add(v[0])
-    case = dict(ref=ref, listed=listed, carried=sorted(carried), alns=alns, ncov=ncov, threshold=threshold)
+    case = dict(ref=ref, listed=listed, carried=sorted(carried), alns=alns, ncov=ncov, threshold=threshold,
+                header=[tuple(h) for h in header], sample=sample, malformed=malformed)
     for k in keys:
         case[k] = [(n, sorted(t.items()) if isinstance(t, dict) else sorted(t)) for n, t in sorted(res[k].items())]
     return case
@@ -324,8 +417,9 @@ KEYS = ("truth_all", "truth_clean", "truth_skip", "must", "must_skip", "must_pai
 
 def case_json(case):
     d = dict(ref=case["ref"], listed=[list(v) for v in case["listed"]], threshold=case.get("threshold", 100000),
+             header=[list(h) for h in case.get("header", [(0, 0)])], sample=case.get("sample", 0),
              alns=[dict(nid=a["nid"], start=a["start"], cigar=[list(c) for c in a["cigar"]], seq=a["seq"],
-                        quals=a["quals"], flag=a.get("flag", 0), mapq=a.get("mapq", 60),
+                        quals=a["quals"], flag=a.get("flag", 0), mapq=a.get("mapq", 60), rg=a.get("rg", 0), sm=a.get("sm", 0),
                         **({"mate_start": a["mate_start"]} if "mate_start" in a else {})) for a in case["alns"]])
     for k in KEYS:
         d[k] = [[n, [list(x) if isinstance(x, tuple) else x for x in t]] for n, t in case[k]]
@@ -340,7 +434,8 @@ def case_from_json(d):
         a["cigar"] = [tuple(c) for c in a["cigar"]]
         a["qarr"] = array.array("B", a["quals"])
         alns.append(a)
-    case = dict(ref=d["ref"], listed=[tuple(v) for v in d["listed"]], alns=alns, ncov=1, threshold=d.get("threshold", 100000))
+    case = dict(ref=d["ref"], listed=[tuple(v) for v in d["listed"]], alns=alns, ncov=1, threshold=d.get("threshold", 100000),
+                header=[tuple(h) for h in d.get("header", [[0, 0]])], sample=d.get("sample", 0))
     for k in KEYS:
         case[k] = [(n, [tuple(x) if isinstance(x, list) else x for x in t]) for n, t in d[k]]
     return case
@@ -435,6 +530,9 @@ def check_cases(ctx, wd, cases, label, perturb=None):
                 ctx.tally("listed." + G.kind_of(v))
             ctx.tally("covered_variant_instances", case["ncov"])
             ctx.tally(f"distance_threshold.{case.get('threshold', 100000)}")
+            ctx.tally("drive." + ("single-read-group" if len(case.get("header", [0])) == 1 else
+                                  "malformed" if case.get("malformed") else
+                                  "sample=None" if case.get("sample", 0) is None else "sample-of-interleaved-read-groups"))
             for k in KEYS:
                 ctx.tally("truth." + k, sum(len(t) for _, t in case[k]))
     failing, errors = eval_checks("C06", HEADER, CHECKS, terms, shard=ctx.n(40, 150), timeout=1500)
@@ -447,7 +545,9 @@ def describe(case, refmode, out):
     return (f"reference={'yes' if refmode else 'no'} ref={case['ref']} variants={case['listed']} "
             f"alignments={[(a['nid'], a['start'], cig_str(a['cigar']), a['seq'], a.get('flag', 0)) for a in case['alns']]} "
             f"truth={case['truth_clean'] if refmode else case['truth_all']} truth_skip={case['truth_skip'] if refmode else []} "
-            f"must={case['must_pair'] if refmode else []} distance_threshold={case.get('threshold', 100000)} detected={out}")
+            f"must={case['must_pair'] if refmode else []} distance_threshold={case.get('threshold', 100000)} "
+            f"read_groups(id,sample)={case.get('header', [(0, 0)])} requested_sample={case.get('sample', 0)} "
+            f"alignment_RG={[a.get('rg', 0) for a in case['alns']]} detected={out}")
 
 
 def cig_str(c):
@@ -475,7 +575,14 @@ def report(ctx, raw, failing):
         d = describe(case, refmode, out)
         if (i in F["L2"] and i not in as_original) or i in F["repaired"] or not needed[i]:
             for c in clauses:
-                ctx.violation(GENERIC[c] + ("" if refmode else "-noref"), f"clause {c} fails: {d}", rp)
+                sig = GENERIC[c] + ("" if refmode else "-noref")
+                multi_rg = len(case.get("header", [0])) > 1 and case.get("sample", 0) is not None
+                if multi_rg and c.startswith("L1missing"):
+                    # input class: a sample owning several read groups (interleaved @RG lines) loses alignments
+                    sig = "readgroups:alignments-of-sample-dropped"
+                elif c == "L1crash" and isinstance(out, Err) and out.code != 0:
+                    sig = "readgroups:well-formed-input-rejected"
+                ctx.violation(sig, f"clause {c} fails: {d}", rp)
         else:
             for r in needed[i]:
                 sig, text = RULE_SIG[r]
@@ -496,11 +603,11 @@ def run(ctx, perturb=None):
     target_alns = ctx.n(400, 20000)
     n = 0
     while n < target_alns:
-        c = gen_case(rng, small=rng.random() < 0.3)
-        if c is None:
+        cs = gen_case(rng, small=rng.random() < 0.3)
+        if cs is None:
             continue
-        cases.append(c)
-        n += len(c["alns"])
+        cases += cs                      # one case per drive (requested sample) of the scenario
+        n += len(cs[0]["alns"])
     ex = list(gen_exhaustive(rng)) if not ctx.quick else list(gen_exhaustive(rng))[::3]
     raw, failing = check_cases(ctx, wd, cases + ex, "all", perturb)
     ctx.exhaustive = not ctx.quick
@@ -520,13 +627,13 @@ def run(ctx, perturb=None):
             cand = []
             for c, m, o in l2[:40]:
                 for a in c["alns"]:
-                    if usable(a):
+                    if usable(a) and in_sample(a, c.get("sample", 0)) and not c.get("malformed"):
                         cand.append(restrict_case(c, [a]))
             more = []
             while len(more) < ctx.n(300, 1500):
-                c = gen_case(rng, small=True)
-                if c is not None:
-                    more.append(c)
+                cs = gen_case(rng, small=True)
+                if cs is not None:
+                    more += cs
             raw2, failing2 = check_cases(ctx, wd, cand + more, "search", perturb)
             report(ctx, raw2, failing2)
         if not any(v["signature"] not in known for v in ctx.violations):
@@ -546,7 +653,7 @@ def restrict_case(case, alns):
     c = dict(case)
     c["alns"] = alns
     for k in KEYS:
-        c[k] = [(n, t) for n, t in case[k] if n in names and len([a for a in case["alns"] if a["nid"] == n and usable(a)]) ==
+        c[k] = [(n, t) for n, t in case[k] if n in names and len([a for a in case["alns"] if a["nid"] == n and usable(a) and in_sample(a, case.get("sample", 0))]) ==
                 len([a for a in alns if a["nid"] == n])]
     return c
 
